@@ -301,7 +301,10 @@ def string_cases(rng, fill):
     cases = []
     alphabet = [chr(c) for c in range(32, 127) if chr(c) not in "'\"$"]
     samples = ["", "a", "abc", " ", "  x  ", "(* not a comment *)", "// x", "a;b", "END_VAR", "%IX1", "1..2", "é", "日本",
-               "a\tb", "€uro", "x" * 200]
+               "a\tb", "€uro", "x" * 200,
+               # blank-like and invisible characters are characters like any other
+               "10\u00a0kg", "\u00a0", "\u00a0\u00a0", "a\u202fb", "\u3000", "soft\u00adhyphen", "zero\u200bwidth", "\u2003em", "\u0085",
+               "tab\there", "  two  blanks  ", "\u00a0lead", "trail\u00a0"]
     for _ in range(30 + fill // 4):
         samples.append("".join(rng.choice(alphabet) for _ in range(rng.randint(1, 12))))
     for c in alphabet:
